@@ -257,7 +257,7 @@ func abs(x int) int {
 	return x
 }
 
-var scopePaths = []string{"/", "/a", "/a/b", "/up", "/a/b/c", "/up/"}
+var scopePaths = []string{"/", "/a", "/a/b", "/up", "/a/b/c", "/up/", "/A", "/A/b", "/a/B/c", "/UP", "/Up/load"}
 var limitVals = []int{1, 2, 5, 16, 63, 64, 1000, 4095, 4096, 4097, 32767, 32768, 32769}
 
 func genBodyCase(t *rapid.T) *BodyCase {
